@@ -342,6 +342,25 @@ example : (compareTop { Cfg.default Flags.init true with excl := .one ['/', '/',
 example : (compareTop { Cfg.default Flags.init true with only := .many [['f']] } exA exB).map (fun r => (r.diffs, r.notEqual.map (·.path), r.selfUnique.length))
     = .ok (2, [[.key ['k'], .key ['f']], [.key ['l'], .idx 0]], 0) := by decide
 
+/-! Finding C10-d (open): a composite-key field whose value is a CONTAINER is keyed by the JSON text of its
+untransformed leaves (the transform registered for the field's own path is applied to the field as a whole, and
+`LeafTransform` functions are the identity on containers), so records whose key fields are equal after the transform
+do not meet.  Outside the hypothesis `keyFieldsLeaf` of `C10_transform_keyed_ck`. -/
+def ckContCfg : Cfg := { Cfg.default Flags.init false with ck := .one ['i', 'd'], tr := [⟨['/', '/', 'x'], lowerFn⟩] }
+def ckContRec (c : Char) : Val := .dict .n0 [(['i', 'd'], .dict .n0 [(['x'], .str [c])]), (['v'], .int 1)]
+def ckContA : Val := .dict .n0 [(['r'], .list .n0 [ckContRec 'A'])]
+def ckContB : Val := .dict .n0 [(['r'], .list .n0 [ckContRec 'a'])]
+
+/-- `{'r': [{'id': {'x': 'A'}, 'v': 1}]}` vs `{'r': [{'id': {'x': 'a'}, 'v': 1}]}`, `composite_key='id'`,
+`transform=(('//x', lower),)`: both records are reported unique, although the mapped trees are equal and the run on
+them reports nothing -/
+theorem C10_container_key_field_cex :
+    (match compareTop ckContCfg ckContA ckContB with | .ok r => r.diffs | .error _ => 0) = 2 ∧
+      mapT ckContCfg [] ckContA = mapT ckContCfg [] ckContB ∧
+      (match compareTop { ckContCfg with tr := [] } (mapT ckContCfg [] ckContA) (mapT ckContCfg [] ckContB) with
+        | .ok r => r.diffs | .error _ => 1) = 0 := by
+  decide
+
 end N0.C10
 
 /-! ################################################################################################################
